@@ -9,6 +9,7 @@
 -/
 import SA.Proofs.DnsServer
 import SA.Proofs.DnsOpen
+import SA.Proofs.DnsStray
 
 namespace SA.Props.C13
 open SA.Go SA.Go.Res SA.DnsServer
@@ -292,6 +293,104 @@ theorem C13_closed_id_inert (cd : Codec) (dom : List Nat) (σ : Srv) (m : Msg) (
             | badIp s hl _ => rw [hfree] at hl; simp at hl
             | ok s hl _ => rw [hfree] at hl; simp at hl
 
+
+/-! ## a re-issued identifier belongs to its new session
+
+  An identifier is handed out again as soon as its slot in the live table is free, while the retired table may
+  still remember the session that held it before (closed by its client, closed by the application, expired).  What
+  the retired table remembers must not matter to the new session: the live table decides. -/
+
+/-- regenerated fact: `validateAndGetUser` reads `s.connections[userId]` first and looks at `s.oldConnections` only
+    under `if user == nil` (the model's `validate`).  Fails to compile when the retired table is consulted
+    outside that branch. -/
+theorem C13_validate_live_first : SA.Gen.validateLiveTableFirst = true := by decide
+
+/-- **the owner of a live session is never refused**: a message carrying identifier `i` from the address that owns
+    the live session in slot `i` is never answered BADCONN, BADUSER or BADIP — in EVERY state, in particular
+    whatever the retired table holds under `i` (an earlier session of the same address that was closed or expired,
+    of another address, nothing).  So no close or expiry of an earlier holder of the identifier can make the live
+    session unusable.  By cases over the command table, as `C13_spoof_rejected`. -/
+theorem C13_live_session_accepts_owner (cd : Codec) (hT : cd.Total) (dom : List Nat) (σ σ' : Srv) (m : Msg) (i sid : Nat) (a : Ans)
+    (hid : msgUid dom m = some i) (hlive : σ.live[i]? = some (some sid)) (hown : (σ.sess sid).owner = m.addr)
+    (h : onMessage cd dom σ m = ok (σ', a)) : ¬ Refusal a := by
+  unfold msgUid at hid
+  cases hs : stripDomain m.name dom with
+  | panic => simp [hs] at hid
+  | ok request =>
+    simp only [hs] at hid
+    cases hc : findCmd SA.Gen.commandTable request with
+    | panic => simp [hc] at hid
+    | ok c =>
+      simp only [hc] at hid
+      cases c with
+      | none => simp at hid
+      | some c =>
+        obtain ⟨code, nu, hq, hr⟩ := c
+        cases nu <;> cases hq <;> simp only [] at hid <;> try (simp at hid)
+        cases hh : decodeHeader true request with
+        | panic => simp [hh] at hid
+        | ok hd =>
+          simp only [hh] at hid
+          cases hd with
+          | none => simp at hid
+          | some p =>
+            obtain ⟨rest, uid⟩ := p
+            simp at hid; subst hid
+            have hv := validate_owner hlive hown
+            have hl' : (touch σ sid).live[uid]? = some (some sid) := by rw [live_touch]; exact hlive
+            have ho' : ((touch σ sid).sess sid).owner = m.addr := by rw [owner_touch]; exact hown
+            obtain ⟨q, hq, hquid⟩ := decodeRequest_spec cd hT code true (upOf (touch σ sid) (some sid)) request rest uid hh
+            unfold onMessage at h
+            simp only [hs, hc, Res.bind_ok, hh, hv, Bool.not_true, Bool.false_eq_true, ite_false, Option.isNone_some,
+              Bool.false_and, Option.isSome_some, Bool.true_and, decide_eq_true_eq, reduceCtorEq, hq] at h
+            cases q with
+            | none =>
+              simp [Res.pure_eq] at h; rw [← h.2]
+              exact not_refusal_errAns (by decide) (by decide) (by decide)
+            | some q =>
+              cases q with
+              | version v =>
+                exact absurd ((decodeRequest_kind cd hT code true _ request _ hq).1 v rfl) (needsUser_codes _ (findCmd_mem _ _ _ hc) rfl).1
+              | downTest c =>
+                exact absurd ((decodeRequest_kind cd hT code true _ request _ hq).2 c rfl) (needsUser_codes _ (findCmd_mem _ _ _ hc) rfl).2
+              | options u o =>
+                have : u = uid := hquid _ u rfl rfl
+                subst this
+                exact hOptions_owner cd dom.length m hl' ho' o a h
+              | fragTest u n =>
+                have : u = uid := hquid _ u rfl rfl
+                subst this
+                exact hFragTest_owner cd dom.length m hl' ho' n a h
+              | upTest u p =>
+                have : u = uid := hquid _ u rfl rfl
+                subst this
+                exact hUpTest_owner cd dom.length m hl' ho' p a h
+              | packet u ak p =>
+                have : u = uid := hquid _ u rfl rfl
+                subst this
+                exact hPacket_owner cd dom.length m hl' ho' ak p a h
+
+/-- validateAndGetUser as the seeded change wrote it (not today's code): the retired table is consulted first -/
+def validateRetiredFirst (σ : Srv) (uid addr : Nat) : Res (Srv × Option Nat × VErr) := do
+  let r ← idxOpt σ.retired uid
+  match r with
+  | some rs => if (σ.sess rs).owner = addr then pure (σ, some rs, .badConn) else validate σ uid addr
+  | none => validate σ uid addr
+
+/-- identifier 1 after close and re-issue to the same address (7): object 1 held it and is retired, object 2 holds
+    it now; object 0 (address 3) keeps identifier 0 -/
+def reissuedState : Srv :=
+  { live := [some 0, some 2], retired := [none, some 1],
+    heap := [{ uid := 0, owner := 3, last := 0 }, { uid := 1, owner := 7, last := 1, closed := true }, { uid := 1, owner := 7, last := 2 }],
+    now := 3 }
+
+/-- **witness**: with the retired table consulted first, the owner of the re-issued identifier is told BADCONN (and
+    handed the OLD object) although its session is live; today's `validate` accepts it and hands out the live
+    object.  Kernel-checked. -/
+theorem C13_witness_retired_first :
+    validateRetiredFirst reissuedState 1 7 = ok (reissuedState, some 1, .badConn) ∧
+    validate reissuedState 1 7 = ok (touch reissuedState 2, some 2, .ok) := by decide
+
 /-! ## isolation from other addresses and other sessions -/
 
 /-- **foreign messages preserve**: whatever a message from address A contains (any command, any identifier, any
@@ -390,6 +489,13 @@ example :
       { addr := 1, qtype := 10, name := sampleOpen }) = some (.version 1) := by
   decide +kernel
 
+/-- the hypotheses of `C13_live_session_accepts_owner` are met in the re-issued state (the retired table remembers an
+    earlier session of the SAME address under identifier 1), by a packet request `cabc01…` from address 7 -/
+def sampleName1 : List Nat := [99, 97, 98, 99, 48, 49, 97, 97, 97, 97, 97, 46, 116, 46, 99, 111, 46]
+example : msgUid sampleDom { addr := 7, qtype := 10, name := sampleName1 } = some 1 ∧
+    reissuedState.live[1]? = some (some 2) ∧ (reissuedState.sess 2).owner = 7 ∧
+    reissuedState.retired[1]? = some (some 1) ∧ (reissuedState.sess 1).owner = 7 := by decide
+
 example : safeLoops 300 [(1, 1800, [(1, false)])] = true ∧ safeLoops 300 [(1, 1800, [(0, false)])] = false := by decide
 
 end SA.Props.C13
@@ -402,6 +508,9 @@ end SA.Props.C13
 #print axioms SA.Props.C13.C13_witness_shared_address
 #print axioms SA.Props.C13.C13_spoof_rejected
 #print axioms SA.Props.C13.C13_closed_id_inert
+#print axioms SA.Props.C13.C13_validate_live_first
+#print axioms SA.Props.C13.C13_live_session_accepts_owner
+#print axioms SA.Props.C13.C13_witness_retired_first
 #print axioms SA.Props.C13.C13_foreign_message_preserves
 #print axioms SA.Props.C13.C13_foreign_close_harmless
 #print axioms SA.Props.C13.C13_expiry_loops_safe
